@@ -403,7 +403,7 @@ func c35RefPositions(l []c35Rec) []uint64 {
 func TestMC_C35(t *testing.T) {
 	c := verifmc.Start(t, "C35", "model_checking")
 	defer c.Finish()
-	c.SetRule("(1) BFS over all histories of {TopoWrite of the next prepared one-transaction snapshot on chain A/B/C (A,B: fresh deposit; C: re-finalization of the latest A/B transaction when not yet on C, else a fresh deposit), close + reopen of the on-disk store with a real SetupNode} (histories without a reopen run on in-memory Badger, all others on disk); state = sequence of writes with reopen marks (a reopen directly after (re)building the node is the same state); in every state the full menu ReadSnapshotsSinceTopology(off,cnt) for off in {0,1,middle,last,last+1,2^64-1} x cnt in {0,1,2,500,501}, ReadSnapshotWithTransactionsSinceTopology, ReadSnapshot of every written and one unknown hash, and the raw TOPOLOGY/SNAPTOPO dump are compared with a Go slice of (position, payload hash); (2) the same BFS over {write-A, write-B, reopen} with the node's counter set (synthetic) to 65533 before the first write so that positions are non-contiguous and cross 65536, extra offsets {8,65528,65534,65535,65536}; (3) every interleaving up to the preemption bound of two threads calling TopoWrite on different chains (scheduling points: counter mutex, store mutex, Badger txn begin/commit)")
+	c.SetRule("(1) BFS over all histories of {TopoWrite of the next prepared one-transaction snapshot on chain A/B/C (A,B: fresh deposit; C: re-finalization of the latest A/B transaction when not yet on C, else a fresh deposit), close + reopen of the on-disk store with a real SetupNode} (histories without a reopen run on in-memory Badger, all others on disk); state = sequence of writes with reopen marks (a reopen directly after (re)building the node is the same state); in every state the full menu ReadSnapshotsSinceTopology(off,cnt) for off in {0,1,middle,last,last+1,2^64-1} x cnt in {0,1,2,500,501}, ReadSnapshotWithTransactionsSinceTopology, ReadSnapshot of every written and one unknown hash, and the raw TOPOLOGY/SNAPTOPO dump are compared with a Go slice of (position, payload hash); (2) the same BFS over {write-A, write-B, reopen} with the node's counter set (synthetic) to 65533 before the first write so that positions are non-contiguous and cross 65536, extra offsets {8,65528,65534,65535,65536}; (3) every interleaving up to the preemption bound of two threads calling TopoWrite on different chains (scheduling points: counter mutex, store mutex, Badger txn begin/commit); (4) long graph: one store with 330 (thorough 700) further finalized snapshots of 1/2/3 transactions on 7 chains, EVERY page (cursor in 0..last+2) x count in {0,1,2,10,99,100,101,200,500} of both listing calls compared with the reference list and with the lookup by hash")
 	c.Assume("snapshots are handed to Node.TopoWrite directly (the finalization path above it is not part of this property)", "the reference prefix is the genesis snapshot list produced by Genesis.BuildSnapshots", "Badger transactions are atomic; close is clean (no crash)", "the counter jump of part (2) is synthetic (harness writes node.TopoCounter.seq); everything after it is the real code", "part (3): a Badger transaction reads at begin and publishes at commit, so mutexes and begin/commit are the scheduling points that matter")
 
 	// sanity of the fixture before exploring
@@ -415,6 +415,9 @@ func TestMC_C35(t *testing.T) {
 		c.Require(s.m.Node.TopologicalOrder() == s.maxPos(), "fresh node counter %d, genesis maximum %d", s.m.Node.TopologicalOrder(), s.maxPos())
 		c35Close(s)
 	}
+	// part (4) first: it is cheap and independent of the explorations below
+	c35LongGraph(c)
+
 	depth := verifmc.Pick(c, 4, 6)
 	step := func(evmap []int) func(s *c35State, e int, replaying bool, report func(key, desc string)) bool {
 		return func(s *c35State, e int, replaying bool, report func(key, desc string)) bool {
@@ -466,6 +469,144 @@ func TestMC_C35(t *testing.T) {
 	c.Require(js >= 40 && crossed.Load() >= 10, "vacuous jump exploration: %d states, %d beyond the boundary", js, crossed.Load())
 
 	c35Concurrent(c)
+}
+
+// ---- long graph: every page of a store with several hundred snapshots --------------------
+
+var c35LongCounts = []uint64{0, 1, 2, 10, 99, 100, 101, 200, 500}
+
+// c35LongGraph builds ONE store with n finalized snapshots after genesis
+// (storage-level WriteTransaction + WriteSnapshot with consecutive positions;
+// 1, 2 or 3 transactions per snapshot, spread over the 7 chains) and compares
+// every page (cursor in 0..last+2) x (count menu) of both listing calls with
+// the reference list: starts at the cursor, positions increase by one, each
+// entry carries the position recorded for its hash (lookup by hash), bodies
+// and transactions equal, length = min(count, remaining).
+func c35LongGraph(c *verifmc.Check) {
+	n := verifmc.Pick(c, 330, 700)
+	t0 := time.Now()
+	defer func() { c.Set("long_graph_wall_s", time.Since(t0).Seconds()) }()
+	m, err := newMCNode(mcNet7, 0, "")
+	if err != nil {
+		panic(fmt.Errorf("c35: long graph node: %w", err))
+	}
+	defer m.Close()
+	store := m.Store
+	ref := c35GenesisRef()
+	acct := fixc.Addr("c35-long-wallet")
+	base := m.Net.Epoch + uint64(time.Hour)
+	for i := 0; i < n; i++ {
+		var txs []*common.VersionedTransaction
+		for k := 0; k < 1+i%3; k++ { // a snapshot cannot be encoded without transactions
+			txs = append(txs, m.Net.DepositXIN(fmt.Sprintf("c35-long-%d-%d", i, k), "1", []*common.Address{&acct}, 1))
+		}
+		topo, err := store.VerifFinalize(m.Net.NodeIds[i%len(m.Net.NodeIds)], base+uint64(i)*uint64(time.Millisecond), true, txs...)
+		if err != nil {
+			panic(fmt.Errorf("c35: long graph write %d: %w", i, err))
+		}
+		if topo.TopologicalOrder != uint64(len(ref)) {
+			c.Require(false, "long graph: write %d got position %d, want consecutive %d", i, topo.TopologicalOrder, len(ref))
+			return
+		}
+		ref = append(ref, c35Rec{Pos: topo.TopologicalOrder, Hash: topo.PayloadHash(), Txs: append([]crypto.Hash(nil), topo.Transactions...)})
+	}
+	last := ref[len(ref)-1].Pos
+	c.Set("long_graph_snapshots", len(ref))
+
+	// position recorded for every snapshot hash (lookup by hash)
+	lookup := map[crypto.Hash]uint64{}
+	for _, r := range ref {
+		g, err := store.ReadSnapshot(r.Hash)
+		c.Eval(1)
+		if err != nil || g == nil {
+			c.Violation("lookup-missing:long-graph", fmt.Sprintf("ReadSnapshot(%s) of the snapshot written at position %d: %v %v", r.Hash, r.Pos, g, err), map[string]any{"part": "long-graph", "position": r.Pos})
+			continue
+		}
+		lookup[r.Hash] = g.TopologicalOrder
+		if g.TopologicalOrder != r.Pos || g.PayloadHash() != r.Hash {
+			c.Violation("lookup-position:long-graph", fmt.Sprintf("ReadSnapshot(%s) returns position %d payload %s, written at position %d", r.Hash, g.TopologicalOrder, g.PayloadHash(), r.Pos), map[string]any{"part": "long-graph", "position": r.Pos})
+		}
+	}
+
+	var queries atomic.Int64
+	c.ParallelN(int(last)+3, "long graph pages", func(_, ci int) {
+		cursor := uint64(ci)
+		for _, cnt := range c35LongCounts {
+			for fn := 0; fn < 2; fn++ {
+				var got []*common.SnapshotWithTopologicalOrder
+				var txs [][]*common.VersionedTransaction
+				var err error
+				name := "ReadSnapshotsSinceTopology"
+				if fn == 0 {
+					got, err = store.ReadSnapshotsSinceTopology(cursor, cnt)
+				} else {
+					name = "ReadSnapshotWithTransactionsSinceTopology"
+					got, txs, err = store.ReadSnapshotWithTransactionsSinceTopology(cursor, cnt)
+				}
+				q := fmt.Sprintf("%s(%d,%d) on %d snapshots", name, cursor, cnt, len(ref))
+				replay := map[string]any{"part": "long-graph", "snapshots": len(ref), "call": name, "cursor": cursor, "count": cnt}
+				queries.Add(1)
+				c.Eval(1)
+				c.Distinct(fmt.Sprintf("long|%d|%d|%d", fn, cursor, cnt))
+				if err != nil {
+					c.Violation("listing-error:long-graph", fmt.Sprintf("%s: %v", q, err), replay)
+					continue
+				}
+				var want []c35Rec
+				if cursor < uint64(len(ref)) {
+					end := uint64(len(ref))
+					if end-cursor > cnt {
+						end = cursor + cnt
+					}
+					want = ref[cursor:end]
+				}
+				switch {
+				case len(want) == 0:
+					c.Outcome("long:empty-page")
+				case uint64(len(want)) == cnt:
+					c.Outcome("long:full-page")
+				default:
+					c.Outcome("long:short-page")
+				}
+				if len(got) != len(want) || (fn == 1 && len(txs) != len(want)) {
+					c.Violation("listing-window:long-graph", fmt.Sprintf("%s returned %d snapshots (%d transaction lists), want min(count, remaining) = %d", q, len(got), len(txs), len(want)), replay)
+					continue
+				}
+				for i, w := range want {
+					g := got[i]
+					if g.TopologicalOrder != w.Pos {
+						c.Violation("listing-window:long-graph", fmt.Sprintf("%s element %d has position %d, the page must start at the cursor and increase by one: want %d (first positions returned %v)", q, i, g.TopologicalOrder, w.Pos, c35Positions(got[:min(len(got), 5)])), replay)
+						break
+					}
+					if lp, ok := lookup[g.PayloadHash()]; !ok || lp != g.TopologicalOrder {
+						c.Violation("listing-position-vs-lookup:long-graph", fmt.Sprintf("%s element %d carries position %d, lookup by hash %s gives %d (known %v)", q, i, g.TopologicalOrder, g.PayloadHash(), lp, ok), replay)
+						break
+					}
+					same := g.Hash == w.Hash && g.PayloadHash() == w.Hash && len(g.Transactions) == len(w.Txs)
+					for j := 0; same && j < len(w.Txs); j++ {
+						same = g.Transactions[j] == w.Txs[j]
+					}
+					if !same {
+						c.Violation("listing-hash:long-graph", fmt.Sprintf("%s element %d at position %d is not the snapshot written there (hash %s payload %s, written %s)", q, i, g.TopologicalOrder, g.Hash, g.PayloadHash(), w.Hash), replay)
+						break
+					}
+					if fn == 1 {
+						ok := len(txs[i]) == len(w.Txs)
+						for j := 0; ok && j < len(w.Txs); j++ {
+							ok = txs[i][j] != nil && txs[i][j].PayloadHash() == w.Txs[j]
+						}
+						if !ok {
+							c.Violation("listing-with-transactions:long-graph", fmt.Sprintf("%s element %d at position %d does not carry the transactions of the written snapshot", q, i, g.TopologicalOrder), replay)
+							break
+						}
+					}
+				}
+			}
+		}
+	})
+	c.Set("long_graph_queries", queries.Load())
+	c.Sample(map[string]any{"part": "long-graph", "snapshots": len(ref), "call": "ReadSnapshotsSinceTopology", "cursor": 1, "count": 10, "expect": "positions 1..10, each equal to ReadSnapshot(hash).TopologicalOrder"})
+	c.Require(len(ref) >= 330 && (c.OutcomeCount("long:full-page") > 1000 && c.OutcomeCount("long:short-page") > 100 && c.OutcomeCount("long:empty-page") > 0 || c.Expired("long graph")), "vacuous long-graph part")
 }
 
 // TestMCRace_C35 is the separate free-running pass (go test -race) over the
